@@ -164,6 +164,18 @@ def eval_group(arg):
                 open(os.path.join(st, "junk"), "w").write("stale")
                 shutil.copy(good, arch)
                 expect_fail = False
+            elif kind == "stale-tmp-other-archive":
+                # an earlier restore of a DIFFERENT archive was killed while extracting: its index and
+                # directories are still in cond-out/archive-tmp
+                st = os.path.join(dst.root, "cond-out", "archive-tmp")
+                os.makedirs(st, exist_ok=True)
+                other = statecheck.std_project(sc.sub("other%d" % rng.randrange(10 ** 6)), name="o")
+                other.cond(["run", "//c-d:e4"], timeout=60, clock=[1_400_000_000])
+                oa = os.path.join(sc.root, "other.tar.gz")
+                other.cond(["archive", "-o", oa], timeout=60)
+                subprocess.run(["tar", "xzf", oa, "-C", st], check=False)
+                shutil.copy(good, arch)
+                expect_fail = False
             elif kind == "crash":
                 shutil.copy(good, arch)
                 kw.update(crash_at=fault["k"], crash_note=note, extra_files=[shutil.__file__])
@@ -223,6 +235,10 @@ def eval_group(arg):
                 if missing or nodir:
                     outs["violations"].append({"key": "C12:successful-restore-incomplete", "msg": "restore exited 0 but rows missing %s / directories missing %s" % (missing[:4], nodir[:4]), "witness": W})
                     continue
+                extra = sorted(set(after_keys) - set(full))
+                if extra:
+                    outs["violations"].append({"key": "C12:successful-restore-recorded-versions-not-in-the-archive", "msg": "restore exited 0 and recorded %s, which are neither in the archive nor were recorded before" % extra[:4], "witness": W})
+                    continue
             else:
                 bump("c12_failure_checks")
                 if after_keys != before_keys and not (expect_fail is None and after_keys == full and all(os.path.isdir(dst.out_dir(x[0], x[1])) for x in arows)):
@@ -274,7 +290,7 @@ def main(tier, n=None):
     for b in range(nbases):
         base = {"seed": rng.randrange(1 << 30), "nruns": rng.randint(2, 4), "prior": b % 4 != 0, "rich": b % 2 == 0}
         bases.append(base)
-        faults = [{"kind": "none"}, {"kind": "no-index"}, {"kind": "garbage"}, {"kind": "stale-tmp"}]
+        faults = [{"kind": "none"}, {"kind": "no-index"}, {"kind": "garbage"}, {"kind": "stale-tmp"}, {"kind": "stale-tmp-other-archive"}]
         faults += [{"kind": "no-dir", "i": rng.randrange(100)} for _ in range(2)]
         faults += [{"kind": "truncate", "frac": rng.random()} for _ in range(4 if tier == "quick" else 16)]
         faults += [{"kind": "truncate", "frac": 1.0 - rng.random() * 0.12} for _ in range(6 if tier == "quick" else 24)]   # tail: last member headers, end-of-archive blocks, gzip trailer
